@@ -35,6 +35,7 @@ Section GraphWF.
   Record bg_inv (done : list relation) (w0 w : list (warning T)) (g : graph) (ne : list (T * T)) : Prop := {
     bi_wf : wfg g;
     bi_nodes : g_nodes g = nodes;
+    bi_keys : adj_keys_nodup eqb g;
     bi_w : w = w0 ++ map warn3 (filter (fun r => negb (incl_src r)) done);
     bi_ne : ne = map (fun r => (related_type r, type_ r)) (filter (fun r => andb (incl_src r) (negb (inferential r))) done);
     bi_sound : forall u v a, edge_at eqb g u v = Some a ->
@@ -56,6 +57,9 @@ Section GraphWF.
     split; simpl.
     - apply wfg_initial. exact Hnd.
     - reflexivity.
+    - intro u. unfold adj_of, g0. simpl.
+      destruct (od_find eqb (map (fun n => (n, [])) nodes) u) as [l|] eqn:E; [|constructor].
+      apply od_find_some_in in E; [|exact Heq]. apply in_map_iff in E. destruct E as [n [E _]]. inversion E. constructor.
     - rewrite app_nil_r. reflexivity.
     - reflexivity.
     - intros u v a H. rewrite edge_at_g0 in H. discriminate.
@@ -67,7 +71,7 @@ Section GraphWF.
     bg_inv done w0 w g ne ->
     let '(w', g', ne') := bg_step X nodes (w, g, ne) r in bg_inv (done ++ [r]) w0 w' g' ne'.
   Proof.
-    intros Hv [Hwf Hn Hw Hne Hs Hc]. unfold bg_step. fold (incl_src r).
+    intros Hv [Hwf Hn Hk Hw Hne Hs Hc]. unfold bg_step. fold (incl_src r).
     destruct (incl_src r) eqn:Ei; simpl negb; cbv iota.
     - assert (Hu : In (related_type r) nodes) by (apply (memb_In eqb Heq); exact Ei).
       assert (Hu' : In (related_type r) (g_nodes g)) by (rewrite Hn; exact Hu).
@@ -78,6 +82,7 @@ Section GraphWF.
       { split.
         - exact Hwf'.
         - rewrite Hn'. exact Hn.
+        - apply (add_edge_keys_nodup eqb Heq); assumption.
         - rewrite filter_app. simpl. rewrite Ei. simpl. rewrite app_nil_r. exact Hw.
         - rewrite filter_app, map_app. simpl. rewrite Ei. simpl. destruct (inferential r); simpl; [rewrite app_nil_r; exact Hne | rewrite Hne; reflexivity].
         - intros u v a H. rewrite (edge_at_add_edge eqb Heq g _ _ _ u v Hwf Hu' Hv') in H.
@@ -96,6 +101,7 @@ Section GraphWF.
     - split.
       + exact Hwf.
       + exact Hn.
+      + exact Hk.
       + rewrite filter_app, map_app. simpl. rewrite Ei. simpl. rewrite Hw, <- app_assoc. reflexivity.
       + rewrite filter_app. simpl. rewrite Ei. simpl. rewrite app_nil_r. exact Hne.
       + intros u v a H. destruct (Hs u v a H) as [r0 [H0 H1]]. exists r0. split; [apply in_or_app; left; exact H0 | exact H1].
@@ -215,7 +221,7 @@ Section GraphWF.
       edge_at eqb g1 u v = Some a <->
       (In u nodes /\ In v nodes /\ exists r, In r (relations X v) /\ related_type r = u /\ a = ea r).
     Proof.
-      destruct built_inv as [Hwf Hn _ _ Hs Hc]. split.
+      destruct built_inv as [Hwf Hn _ _ _ Hs Hc]. split.
       - intro H. destruct (Hs u v a H) as [r [Hr [Hu [Hv [Hin Ha]]]]].
         destruct (all_rels_type r Hr) as [H1 H2]. rewrite Hv in H1, H2.
         split; [exact Hin|]. split; [exact H1|]. exists r. auto.
@@ -228,6 +234,8 @@ Section GraphWF.
 
     Lemma built_nodes : g_nodes g1 = nodes.
     Proof. exact (bi_nodes _ _ _ _ _ built_inv). Qed.
+    Lemma built_keys : adj_keys_nodup eqb g1.
+    Proof. exact (bi_keys _ _ _ _ _ built_inv). Qed.
     Lemma built_wf : wfg g1.
     Proof. exact (bi_wf _ _ _ _ _ built_inv). Qed.
 
@@ -404,6 +412,27 @@ Section GraphWF.
         destruct (base_unique_parent v Hv Hv') as [u [a [Hu _]]]. exists u, v. split; [exact (listed_of_base_edge _ _ _ Hu) | right; reflexivity].
     Qed.
 
+    (* the node set of the identity graph in general: the endpoints of identity edges *)
+    Theorem base_nodes_gen v :
+      In v (g_nodes base) <-> (exists u a, edge_at eqb base u v = Some a) \/ (exists u a, edge_at eqb base v u = Some a).
+    Proof.
+      unfold base at 1. rewrite (nodes_subgraph eqb Heq), built_nodes. split.
+      - intros [Hv [a [b [Hin E]]]].
+        assert (Hl : existsb (fun '(x, y) => andb (eqb x a) (eqb y b)) ne = true)
+          by (apply existsb_exists; exists (a, b); split; [exact Hin | rewrite !(eqb_refl eqb Heq); reflexivity]).
+        apply listed_iff in Hl. destruct Hl as [Ha [Hb [r [Hr [Er Einf]]]]].
+        assert (Hedge : edge_at eqb base a b = Some (mkEA r Solid)) by (apply base_edges; split; [exact Ha|]; split; [exact Hb|]; exists r; auto).
+        destruct E as [E|E]; subst; [right | left]; eauto.
+      - intros [[u [a Hu]]|[u [a Hu]]].
+        + pose proof (listed_of_base_edge _ _ _ Hu) as Hin. apply base_edges in Hu. destruct Hu as [_ [Hv _]].
+          split; [exact Hv|]. exists u, v. split; [exact Hin | right; reflexivity].
+        + pose proof (listed_of_base_edge _ _ _ Hu) as Hin. apply base_edges in Hu. destruct Hu as [Hv _].
+          split; [exact Hv|]. exists v, u. split; [exact Hin | left; reflexivity].
+    Qed.
+
+    Lemma base_nodes_nodup : NoDup (g_nodes base).
+    Proof. unfold base, g_edge_subgraph. cbv zeta. cbn [g_nodes]. apply NoDup_filter. rewrite built_nodes. exact Hnd. Qed.
+
     Theorem built_no_cycle : g_has_cycle eqb g1 = false.
     Proof. apply (ranked_acyclic eqb Heq rk g1 built_wf). intros u v a. apply built_rank_increases. Qed.
 
@@ -429,6 +458,7 @@ Section Packaged.
   Record wf_result (rk : T -> nat) (nodes : list T) (w0 : list (warning T)) (ts : VisionsTypeset T D St) (w1 : list (warning T)) : Prop := {
     wf_root : _root_node ts = Some (Generic X);
     wf_nodes : g_nodes (relation_graph ts) = nodes;
+    wf_graph : wfg (relation_graph ts) /\ adj_keys_nodup eqb (relation_graph ts) /\ adj_keys_nodup eqb (base_graph ts);
     wf_types : Permutation (types ts) nodes;
     (* edges = the relations declared on included types whose source is included, dashed iff inferential *)
     wf_edges : forall u v a, edge_at eqb (relation_graph ts) u v = Some a <->
@@ -443,6 +473,9 @@ Section Packaged.
                              forall u' a', edge_at eqb (base_graph ts) u' v = Some a' -> u' = u /\ a' = a;
     wf_base_spans : forall v, In v nodes -> reach_in eqb (base_graph ts) (Generic X) v;
     wf_base_nodes : (exists t, In t nodes /\ t <> Generic X) -> forall v, In v (g_nodes (base_graph ts)) <-> In v nodes;
+    wf_base_nodes_gen : forall v, In v (g_nodes (base_graph ts)) <->
+                 (exists u a, edge_at eqb (base_graph ts) u v = Some a) \/ (exists u a, edge_at eqb (base_graph ts) v u = Some a);
+    wf_nodups : NoDup nodes /\ NoDup (g_nodes (base_graph ts));
     (* the full graph is acyclic: a rank strictly increases along every edge, and the cycle check finds nothing *)
     wf_rank : forall u v a, edge_at eqb (relation_graph ts) u v = Some a -> rk u < rk v;
     wf_no_cycle : g_has_cycle eqb (relation_graph ts) = false;
@@ -478,6 +511,8 @@ Section Packaged.
     - split; cbn [_root_node relation_graph base_graph Engine_gen.types].
       + reflexivity.
       + eapply (built_nodes X Heq Hty nodes); eassumption.
+      + split; [eapply (built_wf X Heq Hty nodes); eassumption|]. split; [eapply (built_keys X Heq Hty nodes); eassumption|].
+        unfold base. apply (subgraph_keys_nodup eqb Heq). eapply (built_keys X Heq Hty nodes); eassumption.
       + unfold mkset. rewrite (dedup_nodup_id X Heq nodes Hnd). apply Hperm. exact Hnd.
       + eapply (built_edges X Heq Hty nodes); eassumption.
       + eapply (base_edges X Heq Hty nodes); eassumption.
@@ -485,6 +520,8 @@ Section Packaged.
       + eapply (base_unique_parent X Heq Hty nodes); eassumption.
       + eapply (base_spans X Heq Hty nodes); eassumption.
       + intros Hex v. eapply (base_nodes X Heq Hty nodes); eassumption.
+      + intro v. eapply (base_nodes_gen X Heq Hty nodes); eassumption.
+      + split; [exact Hnd | eapply (base_nodes_nodup X Heq Hty nodes); eassumption].
       + eapply (built_rank_increases X Heq Hty nodes); eassumption.
       + eapply (built_no_cycle X Heq Hty nodes); eassumption.
       + eapply (built_warnings X Heq Hty nodes); eassumption.
